@@ -2,6 +2,7 @@ package scen
 
 import (
 	"fmt"
+	"reflect"
 	"strconv"
 	"strings"
 	"time"
@@ -174,6 +175,9 @@ func runC12(s *kernel.Sim) {
 			s.Violate("R1", "plugin-error", "OnResponse error: %v", err)
 		}
 	}
+	// half of the runs: replayed responses take the way they take through the dispatcher
+	viaDispatcher := tp.Chance(1, 2)
+	s.Knobs["replays_fed_back_as_responses"] = viaDispatcher
 	// doRequest asks the plugin and judges a replay; returns the size of the hit.
 	doRequest := func(k key, probe bool) int {
 		n++
@@ -195,6 +199,28 @@ func runC12(s *kernel.Sim) {
 				s.Event("request", keyStr(k), "miss")
 			}
 			return 0
+		}
+		if viaDispatcher {
+			// the dispatcher hands every early response to the response side of the
+			// remedies, as if the provider had sent it (runner.obtainModifiedEarlyResponse)
+			back := lunarMessages.OnResponse{ID: fmt.Sprintf("t%d", n), Method: k.m, URL: k.u, Status: er.Status, Body: er.Body, Headers: er.Headers}
+			// the dispatcher marks it as produced by the gateway (since fix a-replay-is-not-a-
+			// provider-response; set by name so that the harness also builds on a tree
+			// without the field, where the feedback is unmarked as it was then)
+			if f := reflect.ValueOf(&back).Elem().FieldByName("FromGateway"); f.IsValid() && f.CanSet() {
+				f.SetBool(true)
+			}
+			var ferr error
+			if throttling {
+				_, ferr = thr.OnResponse(back, thrCfg)
+			} else {
+				_, ferr = cache.OnResponse(back, cacheCfg, params(k.id))
+			}
+			if ferr != nil {
+				s.Violate("R1", "plugin-error", "OnResponse error on a replayed response: %v", ferr)
+				return 0
+			}
+			s.Probe("replayed_response_fed_back_to_the_remedy")
 		}
 		now := s.Now()
 		st := stored[er.Body]
